@@ -61,7 +61,7 @@ def ev_call(eng, node, st, k, ctx):
         if b is not None and f.id not in st.env:
             return ev_args(eng, node, st, lambda s1, a, kw: b(eng, s1, node, a, kw, k, ctx), ctx)
         if f.id in ("warn", "print"):
-            return ev_args(eng, node, st, lambda s1, a, kw: k(s1, VNONE), ctx)
+            return k(st, VNONE)       # messages are dropped (DESIGN 2.1): their arguments are not evaluated
         # class constructor
         if f.id in R.CLASSES:
             return ev_args(eng, node, st, lambda s1, a, kw: construct(eng, s1, f.id, a, kw, node, k, ctx), ctx)
